@@ -3,10 +3,19 @@
 use std::io::{BufRead, BufWriter, Write};
 
 mod util;
+#[cfg(feature = "fa")]
+mod valueterm;
+#[cfg(feature = "fa")]
+mod valueconv;
 mod lexical;
 mod literal;
 mod ident;
+mod sexp;
+mod exprs;
+mod conds;
+mod stmts;
 mod dump;
+mod takes;
 
 fn main() {
     let args: Vec<String> = std::env::args().collect();
@@ -47,6 +56,12 @@ fn dispatch(t: &[&str]) -> String {
         "lit" => literal::run(t),
         "iden" => ident::run(t),
         "idenpos" => ident::POSITIONS.join(" "),
+        "tk" | "tkv" => takes::run(t),
+        "tktypes" => takes::types(),
+        "expr" => exprs::run(util::backend(t[1]), &sexp::parse(&t[2..].join(" "))),
+        "stmt" => stmts::run(util::backend(t[1]), &sexp::parse(&t[2..].join(" "))),
+        #[cfg(feature = "fa")]
+        "from" | "null" | "try" | "rt" | "rtx" | "asnull" | "dummy" | "deq" | "tupinto" | "tupfrom" | "tup" => valueconv::run(t),
         other => format!("UNKNOWN-OP {}", other),
     }
 }
